@@ -56,8 +56,9 @@ def kw_for(rng, method, allow_bad=True):
     return kw
 
 
-CONTENT_CLASSES = ["plain", "multiline", "crlf", "cr", "bom", "nofinalnl", "empty", "multibyte", "large", "not_utf8"]
-HUGE_CLASSES = ["huge_crlf", "huge_mixed"]      # > 64 Ki characters: block-wise readers meet their block edges
+CONTENT_CLASSES = ["plain", "multiline", "crlf", "cr", "bom", "nofinalnl", "empty", "multibyte", "large", "not_utf8", "exact"]
+HUGE_CLASSES = ["huge_crlf", "huge_mixed", "boundary"]
+LAST_EXACT = []      # side channel of make_content: the pattern name an "exact" content was built for      # > 64 Ki characters: block-wise readers meet their block edges
 
 
 def make_content(rng, names, cls, tier):
@@ -78,6 +79,31 @@ def make_content(rng, names, cls, tier):
         unit = t + "\n" + "".join(rng.choice(["é", "λ", "日本", "😀", "ab1 ", "k=2 "]) for _ in range(20))
         target = rng.choice([9000, 17000]) if tier == "thorough" else rng.choice([600, 9000])
         t = (unit * (target // max(1, len(unit)) + 1))[:target]
+    if cls == "exact":
+        # the whole file is one match of one of the run's patterns (short, > 8 Ki or > 64 Ki characters)
+        cands = [nm for nm in names if nm in corpus.EXACT]
+        if cands:
+            LAST_EXACT.append(rng.choice(cands))
+            cands = [LAST_EXACT[-1]]
+            n = rng.choice([3, 12, 40, 40, 5000, 8191, 8192, 8193, 9000, 9000] if tier == "thorough" or rng.random() < 0.5
+                           else [3, 12, 40, 200, 9000])
+            return corpus.EXACT[rng.choice(cands)](n).encode("utf-8")
+    if cls == "boundary":
+        # size coincidences: byte / character length exactly at (or one off) a typical block size, a multi-byte character
+        # straddling that offset, and a witness that ends exactly at the end of the text
+        n = rng.choice([4096, 4096, 8192, 8192, 8192, 16384, 65536])
+        delta = rng.choice([-1, 0, 0, 1, 2])
+        tail = rng.choice([t[-12:] or "ab12", "k=7", "abc", "42", "is", "x"])
+        filler_unit = (t[:30] or "ab 12 cd") + rng.choice(["\n", " ", "\r\n"])
+        if rng.random() < 0.5:
+            body_len = n + delta - len(tail)                     # ASCII only: characters == bytes
+            filler_unit = filler_unit.encode("ascii", "ignore").decode() or "ab 1\n"
+            body = (filler_unit * (body_len // len(filler_unit) + 1))[:body_len]
+            return (body + tail).encode("utf-8")
+        pre_len = n - 1                                           # a 2..4-byte character starts at byte n-1
+        filler_unit = filler_unit.encode("ascii", "ignore").decode() or "ab 1\n"
+        body = (filler_unit * (pre_len // len(filler_unit) + 1))[:pre_len]
+        return (body + rng.choice(["é", "日", "😀"]) + "z" * max(0, delta) + tail).encode("utf-8")
     if cls in HUGE_CLASSES:
         # short lines of varying length, so that line ends fall on every residue of any block size
         eol = "\r\n" if cls == "huge_crlf" else None
@@ -121,9 +147,9 @@ def generate(run_seed, tier):
     patterns = {"p%d" % i: corpus.recipe_of(n) for i, n in enumerate(names)}
     nfiles = wl.randint(1, 3)
     paths = wl.sample(PATHS, nfiles)
-    files, classes = {}, {}
+    files, classes, exact_for = {}, {}, {}
     enabled_classes = wl.sample(CONTENT_CLASSES, wl.randint(2, 5))
-    if wl.random() < (0.025 if tier == "quick" else 0.06):
+    if wl.random() < (0.04 if tier == "quick" else 0.08):
         enabled_classes = [wl.choice(HUGE_CLASSES)]
     for p in paths:
         nver = 1 if wl.random() < 0.55 else wl.randint(2, 3)
@@ -134,7 +160,10 @@ def generate(run_seed, tier):
             if v > 0 and wl.random() < 0.45:
                 vs.append(same_length_variant(wl, vs[-1]))
             else:
+                del LAST_EXACT[:]
                 vs.append(make_content(wl, names, cls if (v == 0 or wl.random() < 0.7) else wl.choice(enabled_classes), tier))
+                if LAST_EXACT:
+                    exact_for.setdefault(p, "p%d" % names.index(LAST_EXACT[-1]))
         files[p] = [x.hex() for x in vs]
     fault_kinds = fl.sample(["short", "split", "EINTR", "EIO", "ENOENT", "EACCES", "EISDIR"], fl.randint(0, 4))
     fault_rate = fl.choice([0.0, 0.3, 0.6]) if fault_kinds else 0.0
@@ -170,6 +199,13 @@ def generate(run_seed, tier):
                                       {"op": "gcp", "pattern": pid, "discard": True}]))
             path = wl.choice(paths)
             kw = kw_for(wl, m)
+            if "with_context" in m and wl.random() < 0.15:
+                try:
+                    tl = len(bytes.fromhex(files[path][wl.randrange(len(files[path]))]).decode("utf-8"))
+                    if tl <= 1500:           # (every match carries a window: keep the result small)
+                        kw[wl.choice(["n_left", "n_right"])] = max(0, tl + wl.choice([-1, 0, 1]))   # window == text length
+                except UnicodeDecodeError:
+                    pass
             if m.startswith("iterate_"):
                 h = "h%d" % hcount
                 hcount += 1
@@ -183,6 +219,12 @@ def generate(run_seed, tier):
                 ops.append({"op": "call", "method": m, "pattern": pid, "path": path, "kw": kw,
                             "faults": faults_for()})
         tasks.append(ops)
+    # a file that is one whole match of a pattern: ask that pattern about it (whole-text matches are where prefix /
+    # block shortcuts go wrong)
+    for p, pid in sorted(exact_for.items()):
+        t = wl.randrange(len(tasks))
+        for m in wl.sample(["is_exact_match", "has_match", "get_matches_and_pos", "split_by_match", "get_matches_with_context"], 3):
+            tasks[t].insert(wl.randint(0, len(tasks[t])), {"op": "call", "method": m, "pattern": pid, "path": p, "kw": {}, "faults": []})
     # writer task
     wops = []
     for p in paths:
